@@ -23,6 +23,7 @@ structure Member (F : Type) where
 
 structure Hexital (F : Type) where
   cfg : MgrCfg                               -- Hexital-level timeframe / fill / HA / lifespan
+  tfName : Option String := none             -- the Hexital-level timeframe as written (upper-cased)
   managers : List (String × Manager F)
   indicators : List (String × HxInd F)
   deriving Inhabited
@@ -54,7 +55,9 @@ def attach (h : Hexital F) (m : Member F) : PyM (Hexital F) :=
       -- a new manager over a deep copy of the default manager's candles, handed over RAW
       -- (`recover_clean_values`, `clean_values = {}`, `reset_candle`): every manager converts its own
       let cfg : MgrCfg := { h.cfg with tf := m.tfSecs }
-      let raw := dm.candles.map fun c => ({ c.recoverClean with clean := none } : Candle F).reset
+      -- (only when the member's timeframe differs from the default manager's own)
+      let raw := if m.tfName == h.tfName then dm.candles
+        else dm.candles.map fun c => ({ c.recoverClean with clean := none } : Candle F).reset
       let nm ← Manager.init cfg raw
       return { h with managers := dset tf nm h.managers,
                       indicators := dset m.tree.name { tree := m.tree, mgrKey := tf } h.indicators }
@@ -63,9 +66,10 @@ def attach (h : Hexital F) (m : Member F) : PyM (Hexital F) :=
 def dedupe (members : List (Member F)) : List (Member F) :=
   (members.foldl (fun acc m => dset m.tree.name m acc) ([] : List (String × Member F))).map (·.2)
 
-def init (cfg : MgrCfg) (cs : List (Candle F)) (members : List (Member F)) : PyM (Hexital F) := do
+def init (cfg : MgrCfg) (tfName : Option String) (cs : List (Candle F)) (members : List (Member F)) :
+    PyM (Hexital F) := do
   let dm ← Manager.init cfg cs
-  let h : Hexital F := { cfg := cfg, managers := [(defaultKey, dm)], indicators := [] }
+  let h : Hexital F := { cfg := cfg, tfName := tfName, managers := [(defaultKey, dm)], indicators := [] }
   (dedupe members).foldlM attach h
 
 /-- `add_indicator` (no calculation) -/
@@ -137,7 +141,7 @@ def hasReading (h : Hexital F) (name : String) : PyM Bool := do
 
 /-- `reading_as_list(name)` -/
 def readingAsList (h : Hexital F) (name : String) : PyM (List (Val F)) :=
-  let primary := (name.splitOn ".").headD ""
+  let primary := (splitDot name).headD ""
   match dlookup primary h.indicators with
   | none => .ok []
   | some hi => do
